@@ -115,6 +115,7 @@ class State:
         self.path = []
         self.notified = False  # used by monitor front end
         self.mon = {}  # front-end specific ghost state (terms / mutable model objects)
+        self.pending = []  # (exception name, condition, lineno) raised by callees in this statement
 
     def clone(self):
         n = State()
@@ -144,6 +145,7 @@ class State:
         n.path = list(self.path)
         n.notified = self.notified
         n.mon = {k: (dict(v) if isinstance(v, dict) else cp(v)) for k, v in self.mon.items()}
+        n.pending = list(self.pending)
         return n
 
     def assume(self, f):
@@ -439,7 +441,27 @@ class Exec:
         m = getattr(self, 'st_' + type(s).__name__, None)
         if m is None:
             raise OutOfSubset(f'statement {type(s).__name__} at line {s.lineno}')
-        return m(s, st)
+        simple = isinstance(s, (ast.Assign, ast.AnnAssign, ast.AugAssign, ast.Expr, ast.Return))
+        env_before = dict(st.env) if simple else None
+        results = m(s, st)
+        out = []
+        for cur, sig in results:
+            if cur.pending:
+                if not simple:
+                    raise OutOfSubset(f'callee may raise inside a compound statement head (line {s.lineno})')
+                pend, cur.pending = cur.pending, []
+                for exc, cond, ln in pend:
+                    # the callee raised: the statement has no effect, the exception propagates
+                    r = cur.clone()
+                    r.pending = []
+                    r.env = dict(env_before)
+                    r.assume(cond)
+                    r.path.append(f'L{ln}:{exc}')
+                    if self.feasible(r):
+                        out.append((r, ('raise', exc, ln)))
+                    cur.assume(z3.Not(cond))
+            out.append((cur, sig))
+        return out
 
     def st_Pass(self, s, st):
         return [(st, ('next',))]
@@ -533,6 +555,8 @@ class Exec:
             obj = self.eval(target.value, st)
             if isinstance(obj, SObj):
                 obj.fields[target.attr] = v
+            elif target.attr in getattr(self.ms, 'ignored_attr_stores', ()):
+                pass
             else:
                 raise OutOfSubset(f'attribute store on {type(obj).__name__} line {target.lineno}')
         else:
@@ -1524,6 +1548,10 @@ class Exec:
             return BoundMethod(base, n.attr)
         if isinstance(base, Val) and isinstance(base.ty, TOpaque) and n.attr in base.ty.attrs:
             return self.wrap(base.ty.attrs[n.attr], base.ty.attr_fn(n.attr)(base.t), st)
+        if isinstance(base, Val) and isinstance(base.ty, TOpaque):
+            mc = self.registry.get(f'{self.ms.path}:{base.ty.name}.{n.attr}')
+            if mc is not None and getattr(mc, 'is_property', False):
+                return self.call_contract(mc, [base], {}, st, n, spec)
         if isinstance(base, ModuleRef):
             return ModuleRef(base.name + '.' + n.attr)
         return BoundMethod(base, n.attr)
@@ -1742,9 +1770,12 @@ class Exec:
             for exc, cond in c.raises.items():
                 if cond is True:
                     continue
-                g = z3.Not(self.spec_bool(cond, st))
-                self.oblige(st, 'call-pre', f'{c.qualname} does not raise {exc}: not({cond})', g,
-                            n.lineno, cond)
+                ct = self.spec_bool(cond, st)
+                if spec or st.guards or sym._bound_stack:
+                    self.oblige(st, 'call-pre', f'{c.qualname} does not raise {exc}: not({cond})',
+                                z3.Not(ct), n.lineno, cond)
+                else:
+                    st.pending.append((exc, ct, n.lineno))
             if c is self.c and c.decreases:
                 m = self.spec_val(c.decreases, st).t
                 self.oblige(st, 'decreases',
@@ -1802,6 +1833,10 @@ class Exec:
             r = self.ms.intrinsics[key](self, st, [base] + args, kwargs, n)
             if r is not NotImplemented:
                 return r
+        if isinstance(base, Val) and isinstance(base.ty, TOpaque):
+            mc = self.registry.get(f'{self.ms.path}:{base.ty.name}.{name}')
+            if mc is not None:
+                return self.call_contract(mc, [base] + args, kwargs, st, n, spec)
         if isinstance(base, MList):
             if name == 'append':
                 base.t = ops.build(base.ty, base.t, self.to_term(args[0], base.ty.elem, st))
